@@ -9,6 +9,9 @@ import Vata.Proofs.SimModel
 import Vata.Proofs.InclDown
 import Vata.Proofs.InclDownInv
 import Vata.Proofs.InclDownTotal
+import Vata.Proofs.InclUpSim
+import Vata.Proofs.InclUpSimInv
+import Vata.Proofs.InclUpSimTotal
 import Vata.Properties.Dispatch
 /-!
 # C01 – Explicit tree-automata inclusion is exact under every algorithm selection
@@ -32,6 +35,15 @@ import Vata.Properties.Dispatch
   *upward, no simulation*: `SanitizeAutsForInclusion` (= `removeUseless` on both operands) followed by the work-list /
   antichain exploration `InclUp.run` of `ExplicitUpwardInclusion::checkInternal`; `inclUp` is the exploration alone (on
   operands the caller has trimmed).  `none` means "fuel exhausted / internal check failed", it is never a verdict.
+* **Model of the code, upward with simulation** (`Vata/InclUpSim.lean`).  `InclUpSim.run R A B fuel` mirrors the same
+  `checkInternal` for a relation `R` (`ANTICHAINS_UP_SIM`): macro-states minimised through `ind`/`inv` (states simulated by
+  another member are dropped), a pair `(q, S)` skipped when a state of `S` simulates `q` (`checkIntersection(ind[q], S)`),
+  `contains`/`refine` modulo the relation (`(p, P)` subsumes `(q, S)` when `q ≼ p` and every state of `P` is simulated by
+  a state of `S`).  `inclUpSim A B R fuel` ends certify-then-trust: a `true` only after `R` has been validated (`isUpSimB`
+  on `unionDisjoint A B`, disjoint operands) and the final antichain has passed `upCertSimB A B R`; a `false` only with
+  a checked tree.  `checkInclUpSim A B fuel` is the command-line `CheckInclusion`: `sanitize`, the greatest upward
+  simulation `upSimRef` of the disjoint union of the prepared operands, then the pruned exploration (the library entry
+  point passes the caller's operands and relation through, `C01_dispatch` item 4).
 * **Models of the code, downward** (`Vata/InclDown.lean`).  `InclDown.run o A B fuel` mirrors the recursive algorithm
   (`CheckDownwardTreeInclusion` with `DownwardInclusionFunctor::expand`: work-set, `childrenCache`, the antichain
   `nonincluded`, phase 1 "a positionwise bigger tuple", then the choice functions), `InclDown.runN o A B fuel` the
@@ -53,7 +65,8 @@ import Vata.Properties.Dispatch
   exploration `inclUp` on these (trimmed AND renumbered) operands; `C01_downward_prepared_exact` runs the four downward
   explorations on them, the `Sim` ones with the greatest downward simulation `downSimRef` of their disjoint union (the
   relation of C04) – "a simulation preorder computed on the disjoint union of the prepared operands".
-* **Certificate principles.**  `UpCert` / `DownCert` (and `DownCertR`: modulo language preorders) are the invariants on
+* **Certificate principles.**  `UpCert` / `DownCert` (and `UpCertSim`: modulo an upward simulation of the disjoint union,
+  `DownCertR`: modulo language preorders) are the invariants on
   which the upward antichain algorithm and the downward algorithms rest: whatever search produces a set `X` of pairs with
   these closure properties has established inclusion.
 * **Dispatch.**  `Vata.Gen.explDispatch` (`Vata/Generated/Tables.lean`) is the `switch (params.GetOptions())` of
@@ -428,9 +441,138 @@ example : ∃ c, inclDownNonrecSim (sanitize SanEx.exB SanEx.exA).1 (sanitize Sa
     (downSimRef (unionDisjoint (sanitize SanEx.exB SanEx.exA).1 (sanitize SanEx.exB SanEx.exA).2.1)) 20 = some (false, c) :=
   ⟨_, rfl⟩
 
+/-! ### the selection "upward with simulation" -/
+
+/-- the "context language" property of an upward simulation `S` (identity on siblings, respecting finality) of an
+automaton `U`: if `r` simulates `q`, every context `c` that leads from `q` to a final state accepts every tree that `r`
+labels – this is why a state simulated by another member of a macro-state, and a pair whose `A`-state is simulated by a
+member of its macro-state, can be dropped -/
+theorem C01_upward_sim_context (U : TA) (S : Nat → Nat → Prop) (hS : IsUpSim U S) (c : InclUpSim.Ctx) (q r : Nat)
+    (t' : Tree) (hqr : S q r) (hr : r ∈ reach U t') (h : accepting U (c.reachFrom U [q]) = true) :
+    accepts U (c.plug t') = true := InclUpSim.upSim_ctx_accepts U S hS c hqr hr h
+
+-- `g(□)` leads from `1` to the final `3`; `12` simulates `1`; `a` is labelled `12`: `g(a)` is accepted
+example : accepts (unionDisjoint InclUpSimEx.exP InclUpSimEx.exQ)
+    (InclUpSim.Ctx.plug (.node 2 [] .hole []) (.node 0 [])) = true :=
+  C01_upward_sim_context _ (RelOf (upSimRef (unionDisjoint InclUpSimEx.exP InclUpSimEx.exQ))) (upSimRef_sim _)
+    (.node 2 [] .hole []) 1 12 (.node 0 []) (by decide) (by decide) (by decide)
+
+/-- soundness of upward pruning modulo a simulation: `S` a reflexive and transitive upward simulation of the disjoint
+union of `A` and `B` (disjoint states); a set `X` of pairs whose first components are states of `A`, closed under the
+post-image of the rules of `A` *up to* `S` (`UpCertSim`: the parent is simulated by a state of the post-image – the pair
+is skipped –, or a pair `(p, P)` of `X` has `parent ≼ p` and every state of `P` is simulated by a state of the
+post-image) and without bad pair: inclusion holds -/
+theorem C01_upward_sim_certificates (A B : TA) (S : Nat → Nat → Prop) (hS : IsUpSim (unionDisjoint A B) S)
+    (hrefl : ∀ q, S q q) (htr : ∀ a b c, S a b → S b c → S a c) (hdis : ∀ q, q ∈ A.states → q ∉ B.states)
+    (X : List (Nat × List Nat)) (hX : InclUpSim.UpCertSim A B S X) (hkeys : InclUpSim.KeysIn A X) (hok : NoBad A B X) :
+    Incl A B := InclUpSim.up_cert_sim_incl A B S hS hrefl htr hdis X hX hkeys hok
+
+-- the hypotheses on a concrete pair: the closure of `{1 ≼ 2, 10 ≼ 12}` and the set `{(2,{12}), (3,{11})}`
+example : IsUpSim (unionDisjoint InclUpSimEx.exP InclUpSimEx.exQ) (InclUpSim.Star (RelOf InclUpSimEx.exR)) ∧
+    InclUpSim.UpCertSim InclUpSimEx.exP InclUpSimEx.exQ (InclUpSim.LeqP InclUpSimEx.exR) [(2, [12]), (3, [11])] ∧
+    InclUpSim.KeysIn InclUpSimEx.exP [(2, [12]), (3, [11])] ∧ NoBad InclUpSimEx.exP InclUpSimEx.exQ [(2, [12]), (3, [11])] :=
+  ⟨InclUpSim.upSim_star _ ((isUpSimB_iff _ _).mp (by decide)), upCertSimB_sound (by decide)⟩
+
+/-- the Boolean checker the model applies to the final antichain is exactly that certificate (for the reflexive closure
+of the given relation), and a checked antichain with a validated relation proves the inclusion -/
+theorem C01_upward_sim_certificate_check (A B : TA) (R : Rel) (X : List (Nat × List Nat)) :
+    (upCertSimB A B R X = true ↔
+      InclUpSim.UpCertSim A B (InclUpSim.LeqP R) X ∧ InclUpSim.KeysIn A X ∧ NoBad A B X) ∧
+    (isUpSimB (unionDisjoint A B) R = true → InclDown.disjointB A B = true → upCertSimB A B R X = true → Incl A B) :=
+  ⟨upCertSimB_iff A B R X, fun h₁ h₂ h₃ => upCertSimB_incl h₁ h₂ h₃⟩
+
+-- with `1 ≼ 2`, `10 ≼ 12` the set `{(2,{12}), (3,{11})}` is a certificate; with the empty relation it is not
+example : upCertSimB InclUpSimEx.exP InclUpSimEx.exQ InclUpSimEx.exR [(2, [12]), (3, [11])] = true ∧
+    upCertSimB InclUpSimEx.exP InclUpSimEx.exQ [] [(2, [12]), (3, [11])] = false := by decide
+
+/-- selection "upward with simulation" for a GIVEN relation `R` on the disjoint union: the model validates `R` (an
+upward simulation on `unionDisjoint A B`, the operands disjoint) before it trusts a `true`; every verdict is exact on any
+operands and for any `R`; when `A` is trimmed, the validation passes and `R` is transitive and reflexive on the parents
+of the rules, the right verdict is returned for every fuel above the bound of the plain upward algorithm -/
+theorem C01_upward_sim_exact (A B : TA) (R : Rel) :
+    (∀ fuel b c, inclUpSim A B R fuel = some (b, c) → (b = true ↔ Incl A B)) ∧
+    (Trimmed A → InclUpSim.Valid R A B → ∀ fuel, fuelBound A B < fuel →
+      (Incl A B → ∃ c, inclUpSim A B R fuel = some (true, c)) ∧
+      (¬ Incl A B → ∃ c, inclUpSim A B R fuel = some (false, c))) :=
+  ⟨fun _ _ _ h => inclUpSim_iff h, fun hA hV _ hf => InclUpSim.inclUpSim_complete hV hA hf⟩
+
+example : inclUpSim InclUpSimEx.exP InclUpSimEx.exQ InclUpSimEx.exR 20 = some (true, .closed [(2, [12]), (3, [11])]) := rfl
+example : ∃ c, inclUpSim InclUpEx.exG InclUpEx.exH (upSimRef (unionDisjoint InclUpEx.exG InclUpEx.exH)) 20 =
+    some (false, c) := ⟨_, rfl⟩
+example : Trimmed InclUpSimEx.exP ∧ InclUpSim.Valid InclUpSimEx.exR InclUpSimEx.exP InclUpSimEx.exQ ∧
+    fuelBound InclUpSimEx.exP InclUpSimEx.exQ < 321 :=
+  ⟨trimmed_of_allUsefulB (by decide), ⟨by decide, by decide, InclUpSim.preorderB_sound (by decide)⟩, by decide⟩
+-- a relation that is not an upward simulation, or operands that overlap, never yield a `true`
+example : inclUpSim InclUpSimEx.exP InclUpSimEx.exQ [(1, 11)] 20 = none ∧
+    inclUpSim InclUpEx.exA InclUpEx.exA [] 20 = none := ⟨rfl, rfl⟩
+
+/-- what a verdict of the model carries: `true` comes with a validated relation and an antichain that is a certificate
+modulo it, `false` with a tree accepted by `A` and rejected by `B` -/
+theorem C01_upward_sim_verdict_certified (A B : TA) (R : Rel) (fuel : Nat) (b : Bool) (c : Cert)
+    (h : inclUpSim A B R fuel = some (b, c)) :
+    match c with
+    | .closed X => b = true ∧ IsUpSim (unionDisjoint A B) (RelOf R) ∧ (∀ q, q ∈ A.states → q ∉ B.states) ∧
+        InclUpSim.UpCertSim A B (InclUpSim.LeqP R) X ∧ InclUpSim.KeysIn A X ∧ NoBad A B X
+    | .witness w => b = false ∧ accepts A w = true ∧ accepts B w = false := inclUpSim_cert h
+
+example : ∃ c, inclUpSim InclUpSimEx.exP2 InclUpSimEx.exQ2 (upSimRef (unionDisjoint InclUpSimEx.exP2 InclUpSimEx.exQ2)) 20 =
+    some (true, c) := ⟨_, rfl⟩
+
+/-- the pruned exploration proper (no final check involved), for a relation `R` that passes the validation and is
+transitive and reflexive on the parents of the rules: the antichain of a `return true` passes the certificate check, a
+`return false` at `(q, t)` has `q ∈ reach A t` and either `q` final and `t ∉ L(B)` or no state of `B` labels `t`
+(`ErrOK`; on a trimmed `A` it refutes the inclusion), and the exploration ends within the bound.  So the final checks of
+the model never refuse: `none` means "fuel exhausted" only -/
+theorem C01_upward_sim_exploration_certified (A B : TA) (R : Rel) (hV : InclUpSim.Valid R A B) (fuel : Nat) :
+    (∀ P, InclUpSim.run R A B fuel = some (.ok P) → upCertSimB A B R (pairs P) = true ∧ Incl A B) ∧
+    (∀ e, InclUpSim.run R A B fuel = some (.error e) → ErrOK A B e ∧ (Trimmed A → ¬ Incl A B)) ∧
+    (fuelBound A B < fuel → ∃ r, InclUpSim.run R A B fuel = some r) :=
+  ⟨fun _ h => ⟨InclUpSim.run_ok_cert hV.pre.trans hV.simHyp.fin h, (InclUpSim.run_sound hV).1 _ h⟩,
+    fun _ h => ⟨InclUpSim.run_error_ok hV.simHyp h, fun hA => (InclUpSim.run_sound hV).2 hA _ h⟩,
+    fun h => InclUpSim.run_terminates hV.pre h⟩
+
+example : InclUpSim.run InclUpSimEx.exR InclUpSimEx.exP InclUpSimEx.exQ 20 =
+    some (.ok [⟨2, [12], .node 0 []⟩, ⟨3, [11], .node 2 [.node 0 []]⟩]) := rfl
+
+/-- the selection "upward with simulation" as the command line runs it (`checkInclUpSim`: operands prepared by `sanitize`,
+the greatest upward simulation of their disjoint union, the pruned exploration): no hypothesis is left – the validation
+passes, the relation is a preorder, the first operand is trimmed.  Every verdict is exact for the ORIGINAL question
+`Incl A B`, and the right verdict is returned for every fuel above the bound -/
+theorem C01_upward_sim_prepared_exact (A B : TA) :
+    (∀ fuel b c, checkInclUpSim A B fuel = some (b, c) → (b = true ↔ Incl A B)) ∧
+    (∀ fuel, fuelBound (sanitize A B).1 (sanitize A B).2.1 < fuel →
+      (Incl A B → ∃ c, checkInclUpSim A B fuel = some (true, c)) ∧
+      (¬ Incl A B → ∃ c, checkInclUpSim A B fuel = some (false, c))) :=
+  ⟨fun _ _ _ h => checkInclUpSim_iff h, fun _ hf => checkInclUpSim_complete A B hf⟩
+
+-- the operands of the example overlap and the first is not trimmed
+example : ∃ c, checkInclUpSim SanEx.exA SanEx.exB 20 = some (true, c) := ⟨_, rfl⟩
+example : ∃ c, checkInclUpSim SanEx.exB SanEx.exA 20 = some (false, c) := ⟨_, rfl⟩
+example : fuelBound (sanitize SanEx.exA SanEx.exB).1 (sanitize SanEx.exA SanEx.exB).2.1 < 33 := by decide
+
+/-- any verdict of the upward selection with a relation – whatever the relation – equals any verdict of the reference
+and of the upward selection without relation -/
+theorem C01_upward_sim_agrees (A B : TA) (R : Rel) (f₀ f₁ f₂ f₃ : Nat) (b₀ b₁ b₂ b₃ : Bool) (c₁ c₂ c₃ : Cert)
+    (h₀ : inclM A B f₀ = some b₀) (h₁ : inclUpSim A B R f₁ = some (b₁, c₁))
+    (h₂ : checkInclUpSim A B f₂ = some (b₂, c₂)) (h₃ : checkInclUp A B f₃ = some (b₃, c₃)) :
+    b₁ = b₀ ∧ b₂ = b₀ ∧ b₃ = b₀ := by
+  have e₀ := inclM_iff A B f₀ b₀ h₀
+  have e₁ := inclUpSim_iff h₁
+  have e₂ := checkInclUpSim_iff h₂
+  have e₃ := checkInclUp_iff h₃
+  have key : ∀ b : Bool, (b = true ↔ Incl A B) → b = b₀ := fun b e => by
+    cases b <;> cases b₀ <;> simp_all
+  exact ⟨key _ e₁, key _ e₂, key _ e₃⟩
+
+example : inclM InclUpSimEx.exP InclUpSimEx.exQ 10 = some true ∧
+    (inclUpSim InclUpSimEx.exP InclUpSimEx.exQ InclUpSimEx.exR 20).map (·.1) = some true ∧
+    (checkInclUpSim InclUpSimEx.exP InclUpSimEx.exQ 20).map (·.1) = some true ∧
+    (checkInclUp InclUpSimEx.exP InclUpSimEx.exQ 20).map (·.1) = some true := ⟨by decide, rfl, rfl, rfl⟩
+
 /-! ### "all selections return the same verdict", for the modelled selections -/
 
-/-- any verdicts of the models of the seven modelled selections (upward; downward non-recursive; downward recursive
+/-- any verdicts of the models of seven of the eight selections (the eighth, upward with a relation, is
+`C01_upward_sim_agrees` above) (upward; downward non-recursive; downward recursive
 without and with the cache functor; downward recursive / non-recursive with a given relation `R`) on the same pair, and
 any verdict of the reference, are equal – whatever the fuels and whatever `R` -/
 theorem C01_modelled_selections_agree (A B : TA) (R : Rel) (f₀ f₁ f₂ f₃ f₄ f₅ f₆ : Nat) (b₀ b₁ b₂ b₃ b₄ b₅ b₆ : Bool)
@@ -504,11 +646,16 @@ example : Dispatch.simConsistent ⟨"X", 16, "explUp", "-", "-", "true", "given"
 /-!
 ## not yet proved
 
-* The selection **upward with a simulation** (`ANTICHAINS_UP_SIM`: the upward-compatible downward simulation on the
-  disjoint union used to prune macro-states and antichain comparisons) has no model: `inclUp` instantiates the identity
-  relation only.  Soundness of upward pruning modulo a simulation is not proved.  It is the only one of the eight
-  implemented selections (`C01_dispatch`) without an exact model; it is covered by the correspondence check against
-  `C01_reference_exact` only.
+* **Upward with a simulation outside its preconditions.**  Every verdict of `inclUpSim` is exact unconditionally
+  (`C01_upward_sim_exact`); a verdict is only guaranteed when the given relation passes the validation (an upward
+  simulation of the disjoint union, operands with disjoint states), is transitive and reflexive on the parents of the
+  rules, and the smaller operand is trimmed.  The C++ library entry point passes the caller's operands and relation
+  through unchecked (`C01_dispatch`, item 4) – on operands that share a state number the pruned exploration can end with
+  `return true` although the inclusion is false (`InclUpSimEx`, the pair `exDeep`/`exA`); the model then refuses.  On the
+  prepared operands with the computed relation all preconditions hold (`C01_upward_sim_prepared_exact`).  That the
+  relation the C++ `ComputeSimulation` returns for `TA_UPWARD` is `upSimRef` of the union is C04.  Hash-container
+  iteration orders are replaced by list order: which of several simulation-equivalent states represents them in a
+  minimised macro-state may differ from the C++ run (the verdict does not depend on it).
 * **"With or without the implication cache"**: the model of the `Opt` functor is the model of the plain functor by
   definition (`C01_downward_cache_same_computation`, first component is `rfl`).  That `OptDownwardInclusionFunctor`
   never fills its cache `incl_` is an argument about the C++ source (header of `Vata/InclDown.lean`), not a theorem.
